@@ -198,7 +198,11 @@ impl WaitCondvar<bool> {
 }
 
 impl DbInner {
-	fn open(options: &Options, opening_mode: OpeningMode) -> Result<DbInner> {
+	fn open(
+		options: &Options,
+		opening_mode: OpeningMode,
+		create_version: Option<u32>,
+	) -> Result<DbInner> {
 		if opening_mode == OpeningMode::Create {
 			try_io!(std::fs::create_dir_all(&options.path));
 		} else if !options.path.is_dir() {
@@ -214,7 +218,10 @@ impl DbInner {
 			.open(lock_path.as_path()));
 		lock_file.try_lock_exclusive().map_err(Error::Locked)?;
 
-		let metadata = options.load_and_validate_metadata(opening_mode == OpeningMode::Create)?;
+		let metadata = options.load_and_validate_metadata_in_version(
+			opening_mode == OpeningMode::Create,
+			create_version,
+		)?;
 		let mut columns = Vec::with_capacity(metadata.columns.len());
 		let mut commit_overlay = Vec::with_capacity(metadata.columns.len());
 		let log = Log::open(options)?;
@@ -1509,9 +1516,27 @@ impl Db {
 		Self::open_inner(options, OpeningMode::ReadOnly)
 	}
 
+	/// Open or create. A database created by this call is in format `version`, an existing one in
+	/// another format is refused. The metadata is looked at and written with the lock held.
+	pub(crate) fn open_or_create_in_version(options: &Options, version: u32) -> Result<Db> {
+		let db = Self::open_inner_in_version(options, OpeningMode::Create, Some(version))?;
+		if db.inner.db_version != version {
+			return Err(Error::Migration("Source and dest format version mismatch".into()))
+		}
+		Ok(db)
+	}
+
 	fn open_inner(options: &Options, opening_mode: OpeningMode) -> Result<Db> {
+		Self::open_inner_in_version(options, opening_mode, None)
+	}
+
+	fn open_inner_in_version(
+		options: &Options,
+		opening_mode: OpeningMode,
+		create_version: Option<u32>,
+	) -> Result<Db> {
 		assert!(options.is_valid());
-		let mut db = DbInner::open(options, opening_mode)?;
+		let mut db = DbInner::open(options, opening_mode, create_version)?;
 		// This needs to be call before log thread: so first reindexing
 		// will run in correct state.
 		if let Err(e) = db.replay_all_logs() {
